@@ -271,6 +271,12 @@ func (g *tfGen) resource(i int) {
 		g.refs = append(g.refs, TfRef{Addr: txt, Attr: "str-literal-place", Declared: false, AdmitsRef: false})
 		fmt.Fprintf(&g.sb, "  num = %s\n", txt)
 	}
+	if len(d.Attrs) > 0 && r.Intn(2) == 0 {
+		// a self reference to an attribute of this very block
+		txt := "self." + d.Attrs[r.Intn(len(d.Attrs))]
+		g.refs = append(g.refs, TfRef{Addr: txt, Attr: "nums", Declared: true, AdmitsRef: true})
+		fmt.Fprintf(&g.sb, "  nums = %s\n", txt)
+	}
 	if typ == "aws" {
 		fmt.Fprintf(&g.sb, "  zone = %q\n", "z1")
 		d.Attrs = append(d.Attrs, "zone")
